@@ -148,6 +148,18 @@ fn pending_pattern<A: Algebra>(tree: &Segtree<A::Item, A::Mod>) -> (u64, usize) 
 }
 
 impl<A: Algebra> Live<A> {
+    /// a second, small tree of the same type for re-entrant predicates (every fifth search, decided by position and
+    /// history length), with its length
+    fn aux_tree(&self, pos: usize) -> Option<RefCell<(Segtree<A::Item, A::Mod>, usize)>> {
+        let n = self.shadow.len();
+        if (pos + n + self.log.len()) % 5 != 0 || n > 4096 {
+            return None;
+        }
+        let k = n.min(9);
+        let items: Vec<A::Item> = self.shadow[..k].iter().map(|e| A::leaf(e)).collect();
+        Some(RefCell::new((lib!(Segtree::from_slice(&items)), k)))
+    }
+
     /// expected first r >= l with pred(fold(shadow[l..=r]))
     fn scan_fwd(&self, l: usize, p: &A::Pred) -> Option<usize> {
         let mut o = A::empty();
@@ -280,12 +292,24 @@ impl<A: Algebra> Live<A> {
             Op::Lb(l, p) => {
                 let want = self.scan_fwd(*l, p);
                 let args: RefCell<Vec<A::Obs>> = RefCell::new(Vec::new());
+                // every fifth search has a re-entrant predicate: while it is being evaluated it runs a search of its own on
+                // another tree of the same type (lawful: the predicate is an arbitrary caller-supplied closure)
+                let aux = self.aux_tree(*l);
                 let got = lib!(self.tree.lower_bound(*l, |it: &A::Item| {
                     let o = A::observe(it);
                     let r = A::eval(p, &o);
                     args.borrow_mut().push(o);
+                    if let Some(a) = &aux {
+                        let mut a = a.borrow_mut();
+                        let k = a.1;
+                        let _ = a.0.lower_bound(k / 2, |x: &A::Item| A::eval(p, &A::observe(x)));
+                        let _ = a.0.lower_bound_rev(k - 1, |x: &A::Item| A::eval(p, &A::observe(x)));
+                    }
                     r
                 }));
+                if aux.is_some() {
+                    cx.rep.inc("searches_with_reentrant_predicate");
+                }
                 if cx.judge == Judge::Search {
                     cx.rep.inc("searches_checked");
                     cx.rep.count("pred_args_checked", args.borrow().len() as u64);
@@ -320,12 +344,22 @@ impl<A: Algebra> Live<A> {
             Op::LbRev(r, p) => {
                 let want = self.scan_rev(*r, p);
                 let args: RefCell<Vec<A::Obs>> = RefCell::new(Vec::new());
+                let aux = self.aux_tree(*r);
                 let got = lib!(self.tree.lower_bound_rev(*r, |it: &A::Item| {
                     let o = A::observe(it);
                     let res = A::eval(p, &o);
                     args.borrow_mut().push(o);
+                    if let Some(a) = &aux {
+                        let mut a = a.borrow_mut();
+                        let k = a.1;
+                        let _ = a.0.lower_bound_rev(k - 1, |x: &A::Item| A::eval(p, &A::observe(x)));
+                        let _ = a.0.lower_bound(0, |x: &A::Item| A::eval(p, &A::observe(x)));
+                    }
                     res
                 }));
+                if aux.is_some() {
+                    cx.rep.inc("searches_with_reentrant_predicate");
+                }
                 if cx.judge == Judge::Search {
                     cx.rep.inc("searches_checked");
                     cx.rep.count("pred_args_checked", args.borrow().len() as u64);
@@ -833,8 +867,15 @@ fn run_huge_case<A: Algebra>(case_seed: u64, judge: Judge, n: usize, rep: &mut R
                     Op::Modify(a.min(b), a.max(b), A::gen_mod(&mut rng, nonneg))
                 }
                 1 | 2 => {
-                    let (a, b) = (edge(&mut rng), edge(&mut rng));
-                    Op::Ask(a.min(b), a.max(b))
+                    if rng.chance(1, 2) && n > 16 {
+                        // ragged at both ends: the query decomposes into about 2*log2(n) pieces
+                        let l = *rng.pick(&[1usize, 3, 5, 7]);
+                        let r = n - 1 - *rng.pick(&[1usize, 2, 4, 6]);
+                        Op::Ask(l, r)
+                    } else {
+                        let (a, b) = (edge(&mut rng), edge(&mut rng));
+                        Op::Ask(a.min(b), a.max(b))
+                    }
                 }
                 3 => Op::Lb(edge(&mut rng), A::gen_pred(&mut rng, &live.shadow)),
                 _ => Op::LbRev(edge(&mut rng), A::gen_pred(&mut rng, &live.shadow)),
@@ -1059,6 +1100,8 @@ fn main() {
             (<SumI64 as Algebra>::name(), run_huge_case::<SumI64> as HRunner),
             (<MinAddI32 as Algebra>::name(), run_huge_case::<MinAddI32> as HRunner),
             (<FlipCount as Algebra>::name(), run_huge_case::<FlipCount> as HRunner),
+            // a non-commutative merge: the order in which the pieces of a query are combined matters
+            (<HashWord as Algebra>::name(), run_huge_case::<HashWord> as HRunner),
         ];
         if let Some(case) = a.opt("case") {
             let parts: Vec<&str> = case.split(':').collect();
@@ -1073,7 +1116,12 @@ fn main() {
             eng.finish(report);
         }
         let sizes = huge_sizes(thorough);
-        let tasks: Vec<(usize, usize, u64)> = (0..table.len()).flat_map(|ai| sizes.iter().map(move |&n| (ai, n))).flat_map(|(ai, n)| (0..2u64).map(move |k| (ai, n, k))).collect();
+        // (the non-commutative algebra has 56-byte nodes: not beyond 2^22 + 2 elements)
+        let tasks: Vec<(usize, usize, u64)> = (0..table.len())
+            .flat_map(|ai| sizes.iter().map(move |&n| (ai, n)))
+            .filter(|&(ai, n)| ai != 4 || n <= (1 << 22) + 2)
+            .flat_map(|(ai, n)| (0..2u64).map(move |k| (ai, n, k)))
+            .collect();
         let q = WorkQueue::new(tasks.len() as u64);
         let (table, tasks) = (&table, &tasks);
         // at most 8 trees at a time (memory)
